@@ -24,7 +24,7 @@ func TestCheck(t *testing.T) {
 		hist.Replay(t, f)
 	}
 	run := vlib.Start("C04", "model_checking")
-	alpha := []string{"tx:t1", "tx:tl", "tx:tr", "tx:gb", "tx:s1", "tx:sb", "tx:rb", "tx:ck", "recover", "hot", "towal", "import:s", "import:b", "import:w", "drop", "create", "restart", "restartP", "part", "heal", "demote"}
+	alpha := []string{"tx:t1", "tx:tl", "tx:tr", "tx:gb", "tx:s1", "tx:sb", "tx:fl", "tx:sp", "tx:rb", "tx:ck", "recover", "hot", "towal", "import:s", "import:b", "import:w", "drop", "create", "restart", "restartP", "part", "heal", "demote"}
 	jobs := []hist.Job{
 		{Name: "journal-256p", Cfg: hist.Config{PageSize: 512, Start: 256, R2Starts: "partitioned", Alphabet: alpha}, Depth: 3, Budget: 60 * time.Second},
 		{Name: "wal-513p", Cfg: hist.Config{PageSize: 512, Start: 513, WAL: true, R2Starts: "partitioned", Alphabet: alpha}, Depth: 3, Budget: 60 * time.Second},
